@@ -81,6 +81,11 @@ def load_variants(prop):
                 meta = json.load(open(mp))
                 if prop not in meta.get("exit2_for", []):
                     out.append(("benign-" + name, "silent", ("patch", open(pp).read())))
+    sf = os.path.join(VERIF, "selftest", "sweep_fire.json")
+    if os.path.exists(sf):
+        for m in json.load(open(sf))["mutants"]:
+            if prop in m["detected_by"]:
+                out.append((m["id"], "fire", ("mutant", m["module"], m["kind"], m["desc"], m["ordinal"])))
     from selftest import variants
     for v in variants.VARIANTS:
         if prop in v["props"]:
@@ -101,6 +106,14 @@ def _run_one(args):
         src = apply_unified_diff(sources, payload[1])
         if src is None:
             return (vid, kind, "skipped", "patch does not apply to the current sources")
+    elif payload[0] == "mutant":
+        from selftest import mutants
+        _t, mod, mkind, mdesc, mord = payload
+        new_src = mutants.mutate(sources[mod], kind=mkind, desc=mdesc, ordinal=mord)
+        if new_src is None:
+            return (vid, kind, "skipped", "mutation site absent in %s" % mod)
+        src = dict(sources)
+        src[mod] = new_src
     elif payload[0] == "ast":
         import ast as _ast
         from selftest import variants
